@@ -69,7 +69,10 @@ class Check:
         self.violations = []          # dicts: sig, key, case, expected, got
         self.viol_keys = {}           # key -> sig   (all, uncapped)
         self.sig_count = {}
-        self._known = None
+        self._known = set()
+        for e in load_findings(prop):
+            if e.get('status') == 'open':
+                self._known.update(e.get('cases', []))
         self.assumptions = []
         self.notes = {}
         self.caps = []                # caps that were hit
@@ -99,11 +102,6 @@ class Check:
     def violation(self, v):
         v.setdefault('key', case_key(v['case']))
         self.viol_keys.setdefault(v['key'], v.get('sig', ''))
-        if self._known is None:
-            self._known = set()
-            for e in load_findings(self.prop):
-                if e.get('status') == 'open':
-                    self._known.update(e.get('cases', []))
         if v['key'] in self._known:
             return          # details are only kept for cases that are not recorded findings
         n = self.sig_count.get(v.get('sig', ''), 0)
@@ -120,10 +118,19 @@ class Check:
             if len(self.harness_errors) < 5:
                 self.harness_errors.append((idx, status, (res or '')[-600:] if isinstance(res, str) else ''))
 
-    def explore(self, fn, jobs, init=None, chunk=8, job_deadline=60.0, time_cap=None):
-        """Run all jobs; a time cap, if hit, is reported (exhaustive=False)."""
+    def explore(self, fn, jobs, init=None, chunk=8, job_deadline=60.0, time_cap=None, stop_on_violation=False):
+        """Run all jobs; a time cap, if hit, is reported (exhaustive=False).  With stop_on_violation the
+        exploration is abandoned as soon as a violation that is not a recorded finding has been seen
+        (broken code may make the remaining executions arbitrarily slow; the verdict is already known)."""
         t_end = None if time_cap is None else time.time() + time_cap
         hit = {'cap': False}
+
+        def abort():
+            if not stop_on_violation:
+                return False
+            if self._known is None:
+                return bool(self.viol_keys)
+            return any(k not in self._known for k in self.viol_keys)
 
         def stop():
             if t_end is not None and time.time() > t_end:
@@ -131,8 +138,11 @@ class Check:
                 return True
             return False
         n = runner.run_jobs(fn, jobs, init=init, chunk=chunk, job_deadline=job_deadline,
-                            on_result=self.on_result, stop=stop)
+                            on_result=self.on_result, stop=stop, abort=abort if stop_on_violation else None)
         self.add('jobs', n)
+        if stop_on_violation and abort():
+            self.exhaustive = False
+            self.caps.append('exploration abandoned after the first violation (%d jobs done)' % n)
         if hit['cap']:
             self.exhaustive = False
             self.caps.append('time cap %ss hit after %d jobs' % (time_cap, n))
